@@ -306,7 +306,10 @@ class Tracker:
         that have several whole definitions of which only some carry a state ("mixed"); pass 2 recomputes from the seeds with
         nothing flowing out of a mixed local, so a branch on such a variable does not count as the guard's decision."""
         seeds = {l: set(v) for l, v in self.states.items()}
-        blocks = [b for b in self.body.blocks if not b["cleanup"]]
+        # blocks that no path avoiding the accepting edges found so far can reach (set by Run.gate while it refines an
+        # any-of group): a definition sitting there cannot be the one a surviving path reads
+        dead = DEAD_BLOCKS.get(id(self.body), ())
+        blocks = [b for b in self.body.blocks if not b["cleanup"] and b["id"] not in dead]
         ndefs = {}
         for b in blocks:
             for s in b["stmts"]:
@@ -656,6 +659,9 @@ class Tracker:
         for d in live:
             if d != acc:
                 self.reject.add((bid, d))
+
+
+DEAD_BLOCKS = {}
 
 
 def backward(body, local, through_calls=True, extra=()):
